@@ -35,20 +35,23 @@ Regions == {"magic", "lenlo", "lenhi", "hash", "setid", "type", "body"}
 Bits == {"lo", "mid", "hi"}
 Cuts == {"boundary", "header8", "header16", "header40", "header63", "body1", "bodymid", "bodylast"}
 
+\* state of the protected files: intact, one deleted, one emptied, all deleted (no usable slice at all)
+DataStates == {"none", "one", "empty", "allgone"}
+
 VARIABLE d
 Init == d = [kind |-> "root"]
 Next ==
   /\ d.kind = "root"
-  /\ \/ \E f \in FileNames : \E k \in 1 .. Len(Files[f]) : \E r \in Regions, b \in Bits, dd \in {"none", "one", "empty"} :
+  /\ \/ \E f \in FileNames : \E k \in 1 .. Len(Files[f]) : \E r \in Regions, b \in Bits, dd \in DataStates :
           d' = [kind |-> "flip", file |-> f, pkt |-> k, region |-> r, bit |-> b, data |-> dd]
-     \/ \E f \in FileNames : \E k \in 1 .. Len(Files[f]) : \E c \in Cuts, dd \in {"none", "one", "empty"} :
+     \/ \E f \in FileNames : \E k \in 1 .. Len(Files[f]) : \E c \in Cuts, dd \in DataStates :
           d' = [kind |-> "trunc", file |-> f, pkt |-> k, cut |-> c, data |-> dd]
-     \/ \E f \in FileNames, w \in {"empty", "garbage", "delete"}, dd \in {"none", "one", "empty"} :
+     \/ \E f \in FileNames, w \in {"empty", "garbage", "delete"}, dd \in DataStates :
           d' = [kind |-> w, file |-> f, pkt |-> 0, data |-> dd]
-     \/ \E m \in 0 .. 2 : \E b \in 1 .. 11 : \E dd \in {"none", "one", "empty"} :
+     \/ \E m \in 0 .. 2 : \E b \in 1 .. 11 : \E dd \in DataStates :
           /\ b <= Len(Files[<< "index", "vol1", "vol2" >>[m + 1]]) + 1
           /\ d' = [kind |-> "prefix", file |-> << "index", "vol1", "vol2" >>[m + 1], pkt |-> b, complete |-> m, data |-> dd]
-     \/ \E s \in SUBSET FileNames, dd \in {"none", "one", "empty"} : s # {} /\ d' = [kind |-> "deleteset", files |-> s, pkt |-> 0, data |-> dd, file |-> "many"]
+     \/ \E s \in SUBSET FileNames, dd \in DataStates : s # {} /\ d' = [kind |-> "deleteset", files |-> s, pkt |-> 0, data |-> dd, file |-> "many"]
 
 \* the tokens of file f after the descriptor has been applied; a damaged tail is one bad token
 BadTok == [set |-> "own", type |-> "unknown", k |-> 0, bad |-> TRUE]
